@@ -54,7 +54,7 @@ func (c19) Parties() map[string]string {
 	return map[string]string{"cfgerrors.All": "real", "cors.NewMiddleware/Reconfigure (error producer)": "real", "errors.Join": "real (stdlib)", "iterator consumer": "stub (simulator-owned, cancels at the planned yield)"}
 }
 func (c19) FaultKinds() []string {
-	return []string{"F8_cancel_range_break", "F8_cancel_callback_false", "F8_cancel_pull_stop", "F8_reentrant_range_over_same_iterator"}
+	return []string{"F8_cancel_range_break", "F8_cancel_callback_false", "F8_cancel_pull_stop", "F8_reentrant_range_over_same_iterator", "F8_consumer_unwinds_by_panic"}
 }
 func (c19) Probes() []string {
 	return []string{"cancel_at_first", "cancel_at_last", "cancel_between_siblings_of_nested_join", "join_of_one", "real_cfg_error_tree", "no_cancel_full_traversal", "real_cfg_error_count_checked", "same_error_value_twice_in_tree", "same_iterator_value_reused", "tree_deeper_than_16", "tree_deeper_than_64"}
@@ -399,6 +399,47 @@ func (c19) Exec(plan any, c *Ctx) *Violation {
 			}
 		}
 	}
+	// consumer 4: the loop body UNWINDS at yield k (a panic recovered further up, as
+	// net/http does around a handler; runtime.Goexit from t.Fatal behaves alike). Whatever
+	// the iterator held at that instant must not show in the next traversal - of this
+	// error or of an unrelated one.
+	other := errors.Join(&leafErr{id: -1}, errors.Join(&leafErr{id: -2}, &leafErr{id: -3}))
+	wantOther := flatten(other)
+	for _, k := range dedupInts([]int{0, 1, n / 2, n - 2, n - 1}) {
+		if k < 0 || k >= n {
+			continue
+		}
+		pan := catch(func() {
+			i := 0
+			for range all() {
+				if i == k {
+					panic(consumerUnwinds)
+				}
+				i++
+			}
+		})
+		c.hit("F8_consumer_unwinds_by_panic")
+		if pan != consumerUnwinds {
+			return &Violation{Class: "panic", Key: "unwind", Detail: fmt.Sprintf("consumer panicking at yield %d of %d: expected its own panic to propagate, got %q", k, n, pan)}
+		}
+		for _, probe := range []struct {
+			name string
+			seq  iter.Seq[error]
+			want []error
+		}{{"the same error", cfgerrors.All(err), want}, {"an unrelated error", cfgerrors.All(other), wantOther}} {
+			var got []error
+			if pan := catch(func() {
+				for e := range probe.seq {
+					got = append(got, e)
+				}
+			}); pan != "" {
+				return &Violation{Class: "panic", Key: "after-unwind", Detail: fmt.Sprintf("traversal of %s after a consumer unwound at yield %d of %d panicked: %s", probe.name, k, n, pan)}
+			}
+			if !sameErrs(got, probe.want) {
+				return &Violation{Class: "wrong-leaves", Key: "after-unwind", Detail: fmt.Sprintf("after a consumer unwound (recovered panic) at yield %d of %d, a full traversal of %s yields %d errors %v, want %d %v", k, n, probe.name, len(got), got, len(probe.want), probe.want)}
+			}
+		}
+	}
 	// every yielded error of a real configuration error is a non-nil leaf
 	for _, e := range want {
 		if e == nil {
@@ -432,6 +473,20 @@ func (c19) Exec(plan any, c *Ctx) *Violation {
 		}
 	}
 	return nil
+}
+
+const consumerUnwinds = "consumer unwinds (injected)"
+
+func dedupInts(xs []int) []int {
+	seen := map[int]bool{}
+	var out []int
+	for _, x := range xs {
+		if !seen[x] {
+			seen[x] = true
+			out = append(out, x)
+		}
+	}
+	return out
 }
 
 func catch(f func()) (pan string) {
